@@ -117,8 +117,21 @@ private:
     std::atomic<marked_value> value;
   };
 
+  // pop_idx and push_idx are incremented by step_size and mapped to an entry modulo entries_per_node.
+  // This mapping is only a bijection if step_size and entries_per_node are coprime, so we pick the
+  // first small prime that does not divide entries_per_node (1 if there is none).
+  static constexpr unsigned calc_step_size() {
+    constexpr unsigned primes[] = {11, 13, 17, 19, 23, 29, 31, 37};
+    for (unsigned p : primes) {
+      if (entries_per_node % p != 0) {
+        return p;
+      }
+    }
+    return 1;
+  }
+
   // TODO - make this configurable via policy.
-  static constexpr unsigned step_size = 11;
+  static constexpr unsigned step_size = calc_step_size();
   static constexpr unsigned max_idx = step_size * entries_per_node;
 
   struct node : reclaimer::template enable_concurrent_ptr<node> {
